@@ -11,11 +11,11 @@ pub const PRE: &str = "struct S { a: u8, b: bool }\nstruct Z {}\nenum E { A, B(u
 /// Types (the last few are not well-formed).
 pub const TYPES: &[&str] = &[
     "bool", "u8", "u16", "u32", "u64", "usize", "i8", "i16", "i32", "i64", "S", "Z", "E", "[u8; 2]", "[u8; N]", "[bool; 0]", "(u8, bool)", "[(u8, bool); 2]", "([u8; 2], S)", "[[u8; N]; 2]", "[Z; 3]",
-    "[u8; const { N + 1usize }]", "[[bool; const { N - 1usize }]; N]",
+    "[u8; const { N + 1usize }]", "[[bool; const { N - 1usize }]; N]", "[S; const { N + 1usize }]", "[E; const { N }]", "[(S, E); const { N - 1usize }]", "[[Z; N]; const { N }]",
     "W", "[u8; K]", "[u8; Q]", "[u8; W]", "[u8; f]", "()",
 ];
 /// Number of well-formed types at the front of `TYPES`.
-const N_GOOD_TYPES: usize = 23;
+const N_GOOD_TYPES: usize = 27;
 
 /// Values (expressions that need no variable in scope besides the declarations of PRE).
 pub const VALUES: &[&str] = &[
